@@ -38,6 +38,7 @@ type LoopSpec struct {
 	Splits    []Clause
 	SplitVars []Clause // case split on the skolemised bound variable of quantified invariants (inv-keep)
 	Snaps     [][2]string // ghost snapshots taken at loop entry: name, expression text
+	SnapsAfter [][2]string // ghost snapshots taken at loop exit
 }
 
 type Contract struct {
@@ -327,7 +328,7 @@ func (e *Engine) scanGlobals() {
 var clauseKeywords = map[string]bool{"func": true, "theorem": true, "global": true, "props": true, "requires": true,
 	"ensures": true, "panics": true, "modifies": true, "decreases": true, "yields": true, "loop": true, "invariant": true,
 	"let": true, "split": true, "mode": true, "established-by": true, "thin": true, "trusted": true, "assert": true,
-	"ensures-notrace": true, "modifies-heap": true, "witness": true, "callback": true, "readonly-heap": true, "fresh-result": true, "pure": true, "splitvar": true, "snapshot": true, "use-lemma": true}
+	"ensures-notrace": true, "modifies-heap": true, "witness": true, "callback": true, "readonly-heap": true, "fresh-result": true, "pure": true, "splitvar": true, "snapshot": true, "snapshot-after": true, "use-lemma": true}
 
 type rawClause struct {
 	kw   string
@@ -470,12 +471,16 @@ func (e *Engine) loadContracts() error {
 						}
 					case "pure":
 						cur.Pure = true
-					case "snapshot":
+					case "snapshot", "snapshot-after":
 						parts := strings.SplitN(rc.text, ":=", 2)
 						if len(parts) != 2 || curLoop == nil {
 							return perr(fmt.Errorf("snapshot needs `name := expr` inside a loop block"))
 						}
-						curLoop.Snaps = append(curLoop.Snaps, [2]string{strings.TrimSpace(parts[0]), strings.TrimSpace(parts[1])})
+						if rc.kw == "snapshot" {
+							curLoop.Snaps = append(curLoop.Snaps, [2]string{strings.TrimSpace(parts[0]), strings.TrimSpace(parts[1])})
+						} else {
+							curLoop.SnapsAfter = append(curLoop.SnapsAfter, [2]string{strings.TrimSpace(parts[0]), strings.TrimSpace(parts[1])})
+						}
 					case "fresh-result":
 						cur.FreshResult = true
 					case "readonly-heap":
@@ -624,7 +629,7 @@ func (e *Engine) witnessType(ct *Contract, w string) types.Type {
 		return nil
 	}
 	for _, ls := range ct.Loops {
-		for _, sn := range ls.Snaps {
+		for _, sn := range append(append([][2]string{}, ls.Snaps...), ls.SnapsAfter...) {
 			if sn[0] == w {
 				w = sn[1] // a ghost snapshot of a local: same type as that local
 			}
